@@ -338,7 +338,26 @@ def r7_generic_matching_is_faithful(ctx):
         ctx.ob('C04.R7', ob.key, ob.ok, ob.loc, ob.detail, ob.nontrivial)
 
 
+def r8_never_clone_is_enforced_for_every_type(ctx):
+    ctx.rule('C04.R8', 'shared with C08.R7 (the two cloning checkers only): "a never-clone component is never cloned" is enforced by '
+             '`cloneables_can_be_cloned` and, for singletons handed out of the application state, by `runtime_singletons_can_be_cloned_if_needed` — the '
+             'only thing in front of the unconditional `state.<field>.clone()` the code generator emits for an owned state input. What those two loops skip '
+             'is decided by the reviewed predicates and by comparisons of the reviewed types (policies, lifecycles, edge kinds) only: a skip that looks at '
+             'the TYPE of the singleton ("an Arc is cheap to clone") clones a never-clone value without a diagnostic.')
+    from .c08 import r7_skip_conditions
+    from ..engine import Ctx
+    side = Ctx(ctx.prop, ctx.fb, ctx.tier)
+    r7_skip_conditions(side)
+    n = 0
+    for ob in side.obs:
+        if 'cloning' in ob.key and not ob.key.startswith('floor'):
+            n += 1
+            ctx.ob('C04.R8', ob.key, ob.ok, ob.loc, ob.detail, ob.nontrivial)
+    ctx.floor('C04.R8', 'obligations on the cloning checkers', n, 4)
+
+
 def check(ctx):
+    r8_never_clone_is_enforced_for_every_type(ctx)
     r7_generic_matching_is_faithful(ctx)
     r1_lookup_direction(ctx)
     r2_scopes_and_overrides(ctx)
